@@ -407,3 +407,150 @@ pub fn gen_program(r: &mut Rng, g: &GenCfg) -> Program {
 	}
 	Program { arena, threads }
 }
+
+// ---------------------------------------------------------------------------------------------
+// shape enumeration for the sequential (solo-mode) families
+
+pub fn permutations(n: usize) -> Vec<Vec<usize>> {
+	fn rec(cur: &mut Vec<usize>, used: &mut Vec<bool>, n: usize, out: &mut Vec<Vec<usize>>) {
+		if cur.len() == n {
+			out.push(cur.clone());
+			return;
+		}
+		for i in 0..n {
+			if !used[i] {
+				used[i] = true;
+				cur.push(i);
+				rec(cur, used, n, out);
+				cur.pop();
+				used[i] = false;
+			}
+		}
+	}
+	let mut out = Vec::new();
+	rec(&mut Vec::new(), &mut vec![false; n], n, &mut out);
+	out
+}
+
+#[derive(Clone, Copy, Debug, PartialEq, Eq, Hash)]
+pub enum Fam {
+	R,
+	M,
+	PR,
+	PM,
+	/// alternating R / M / PR / PM
+	Mixed,
+}
+impl Fam {
+	pub const ALL: [Fam; 5] = [Fam::R, Fam::M, Fam::PR, Fam::PM, Fam::Mixed];
+	pub fn leaf(self, i: usize) -> LeafKind {
+		match self {
+			Fam::R => LeafKind::R,
+			Fam::M => LeafKind::M,
+			Fam::PR => LeafKind::PR,
+			Fam::PM => LeafKind::PM,
+			Fam::Mixed => [LeafKind::R, LeafKind::M, LeafKind::PR, LeafKind::PM][i % 4],
+		}
+	}
+}
+
+/// every (arena, target) shape over `n` leaf locks of family `fam`: single, each collection
+/// kind in every arrangement, poisonable-wrapped collection, every 2-level nesting split, and
+/// arena units (owned / boxed / retrying over Vec) directly and nested.
+pub fn enum_shapes(n: usize, fam: Fam, all_perms: bool) -> Vec<(ArenaSpec, Target)> {
+	let mut out = Vec::new();
+	let leaves: Vec<LeafKind> = (0..n).map(|i| fam.leaf(i)).collect();
+	let arena = ArenaSpec {
+		leaves: leaves.clone(),
+		units: vec![],
+	};
+	let mut perms = permutations(n);
+	if !all_perms && n >= 4 {
+		// identity, reverse and the rotations
+		let mut keep = Vec::new();
+		for r in 0..n {
+			let p: Vec<usize> = (0..n).map(|i| (i + r) % n).collect();
+			let mut q = p.clone();
+			q.reverse();
+			keep.push(p);
+			keep.push(q);
+		}
+		keep.push(vec![1, 3, 0, 2]);
+		keep.sort();
+		keep.dedup();
+		perms = keep;
+	}
+	if n == 1 {
+		out.push((arena.clone(), Target::Leaf(0)));
+	}
+	for p in &perms {
+		let mem: Vec<MemberSpec> = p.iter().map(|i| MemberSpec::Leaf(*i)).collect();
+		for k in CollKind::ALL {
+			out.push((arena.clone(), Target::Coll(k, mem.clone())));
+		}
+		out.push((arena.clone(), Target::PoisColl(mem.clone())));
+		// nestings: first j members form an inner collection
+		if n >= 1 {
+			for j in 1..=n {
+				let inner: Vec<MemberSpec> = mem[..j].to_vec();
+				let rest: Vec<MemberSpec> = mem[j..].to_vec();
+				for k2 in CollKind::ALL {
+					for k1 in CollKind::ALL {
+						// inner first, and inner last
+						let mut m1 = vec![MemberSpec::Nested(k2, inner.clone())];
+						m1.extend(rest.clone());
+						out.push((arena.clone(), Target::Coll(k1, m1)));
+						if !rest.is_empty() {
+							let mut m2 = rest.clone();
+							m2.push(MemberSpec::Nested(k2, inner.clone()));
+							out.push((arena.clone(), Target::Coll(k1, m2)));
+						}
+					}
+				}
+				let mut m3 = rest.clone();
+				m3.insert(rest.len() / 2, MemberSpec::PoisNested(inner.clone()));
+				out.push((arena.clone(), Target::Coll(CollKind::Boxed, m3.clone())));
+				out.push((arena.clone(), Target::Coll(CollKind::Retry, m3)));
+			}
+		}
+		if !all_perms && n >= 3 && p != &perms[0] && p != perms.last().unwrap() {
+			// nestings only for the first and last arrangement in the reduced tier
+		}
+	}
+	// arena units with n members (only homogeneous families)
+	let unit_kinds: &[UnitKind] = match fam {
+		Fam::R => &[UnitKind::OwnedR, UnitKind::BoxedR, UnitKind::RetryR],
+		Fam::M => &[UnitKind::OwnedM, UnitKind::BoxedM, UnitKind::RetryM],
+		_ => &[],
+	};
+	for uk in unit_kinds {
+		let a = ArenaSpec {
+			leaves: vec![],
+			units: vec![(*uk, n)],
+		};
+		out.push((a.clone(), Target::Unit(0)));
+		for k in CollKind::ALL {
+			out.push((a.clone(), Target::Coll(k, vec![MemberSpec::Unit(0)])));
+			out.push((
+				a.clone(),
+				Target::Coll(k, vec![MemberSpec::Nested(CollKind::Boxed, vec![MemberSpec::Unit(0)])]),
+			));
+		}
+		// unit + a free leaf on either side
+		let a2 = ArenaSpec {
+			leaves: vec![fam.leaf(0)],
+			units: vec![(*uk, n)],
+		};
+		for k in CollKind::ALL {
+			out.push((
+				a2.clone(),
+				Target::Coll(k, vec![MemberSpec::Unit(0), MemberSpec::Leaf(0)]),
+			));
+			out.push((
+				a2.clone(),
+				Target::Coll(k, vec![MemberSpec::Leaf(0), MemberSpec::Unit(0)]),
+			));
+		}
+	}
+	out
+}
